@@ -94,7 +94,7 @@ def find_shape(ctx):
 
 
 def rejections(ctx):
-    fn, lv = leaves(ctx, ONE)
+    fn, lv = leaves(ctx, ONE, lower=True)
     is_arg = lambda t: look(t) == ("arg", 1)
 
     def first_crlf(t):
